@@ -242,7 +242,7 @@ def run(ctx):
         return
     quick = ctx.quick
     depth = 8 if quick else 32
-    n_rt, n_by, n_sc, n_ct, n_leaf = (6000, 5000, 1200, 600, 300) if quick else (100000, 80000, 20000, 20000, 10000)
+    n_rt, n_by, n_sc, n_ct, n_leaf = (6000, 5000, 1200, 600, 300) if quick else (50000, 40000, 10000, 10000, 5000)
     seen, nontrivial = set(), set()
     dist = {"rt": {}, "by": {}, "mut": {}, "src": {}, "depth": {}}
     counters = {"rt_accepted": 0, "rt_rejected": 0, "rt_mutated_accepted": 0, "by_value": 0, "by_error": 0,
@@ -296,8 +296,12 @@ def run(ctx):
         nontrivial.add(key)
         if cs["dup"]:
             counters["dup_name_types"] += 1
+        if m_bytes is None:
+            viol(dict(short, theorem="from_json (model) rejects; implementation accepts", impl_json_back=cs.get("out")),
+                 "serial_value accepts JSON that the schema rejects in the model: %s" % json.dumps(cs.get("raw", cs["j"]))[:160])
+            continue
         if m_bytes != ib:
-            viol(dict(short, model_bytes=m_bytes, theorem="json_roundtrip (model proved; implementation produces other bytes / accepts more)"),
+            viol(dict(short, model_bytes=m_bytes, theorem="json_roundtrip (model proved; implementation produces other bytes)"),
                  "serial_value bytes differ from the model: impl %s model %s" % (ib[:80], str(m_bytes)[:80]))
             continue
         if cs["out"] == "ERR":
